@@ -67,11 +67,15 @@ B_Variable      == Cls(<< "V","a","r","i","a","b","l","e" >>, TRUE, "")
 B_Sum           == Cls(<< "S","u","m" >>, TRUE, "")
 B_CSE           == Cls(<< "C","o","m","m","o","n","S","u","b","e","x","p","r","e","s","s","i","o","n" >>, TRUE, "")
 B_Call          == Cls(<< "C","a","l","l" >>, TRUE, "")
-Bases == {"Expression", "Variable", "Sum", "CommonSubexpression", "Call"}
+\* (AlgebraicLeaf and Leaf are abstract: no stock node is a direct instance, user node types are
+\* rooted there as well as at Expression or at a concrete node class)
+Bases == {"Expression", "AlgebraicLeaf", "Leaf", "Variable", "Sum", "CommonSubexpression", "Call"}
 \* the documented ancestry of the built-in bases, root-most first (Expression itself,
 \* which sets no handler name, is below position 1)
 BuiltinLineage(base) ==
     CASE base = "Expression"          -> << >>
+      [] base = "AlgebraicLeaf"       -> << B_AlgebraicLeaf >>
+      [] base = "Leaf"                -> << B_AlgebraicLeaf, B_Leaf >>
       [] base = "Variable"            -> << B_AlgebraicLeaf, B_Leaf, B_Variable >>
       [] base = "Sum"                 -> << B_Sum >>
       [] base = "CommonSubexpression" -> << B_CSE >>
